@@ -6,7 +6,7 @@
 From Coq Require Import QArith List Arith ZArith Lia.
 From BCT Require Import Base.Mat Base.ListX Model.Distance
   Proofs.DistanceBase Proofs.DistanceFloyd Proofs.DistanceBin Proofs.DistanceOther Proofs.DistanceReach Proofs.DistanceWei
-  Proofs.DistanceFull Proofs.DistanceBFS Proofs.DistanceAgree.
+  Proofs.DistanceFull Proofs.DistanceBFS Proofs.DistanceAgree Proofs.DistanceSimple.
 Import ListNotations.
 Open Scope Q_scope.
 
@@ -84,19 +84,38 @@ Theorem C03_distance_wei_diag_zero : forall n G D B, distance_wei n G = Some (D,
   forall i, (i < n)%nat -> D i i = Some 0 /\ B i i = 0%nat.
 Proof. exact distance_wei_diag_zero. Qed.
 
+(* ---------- "the number of edges of some minimum-length PATH", in the strict sense ---------- *)
+(* nonzero entries of a non-negative G are strictly positive lengths, so a minimum-length walk repeats no node:
+   B[i,j] is the number of edges of a duplicate-free node sequence i, mid..., j of minimum total length *)
+Theorem C03_distance_wei_edge_count_path : forall n G D B,
+  (forall i j, (i < n)%nat -> (j < n)%nat -> 0 <= G i j) ->
+  distance_wei n G = Some (D, B) ->
+  forall i j x, (i < n)%nat -> (j < n)%nat -> i <> j -> D i j = Some x ->
+    is_min_dist n (Lg G) i j (Some x) /\
+    exists mid, below n mid /\ NoDup (i :: mid ++ [j]) /\ S (length mid) = B i j /\ oeq (wl (Lg G) i mid j) (Some x).
+Proof. exact distance_wei_edge_count_path. Qed.
+
+(* the same for hops of distance_wei_floyd when all lengths are strictly positive (with zero-length connections,
+   'log' transform of weight 1, C03_floyd_hops_min_path gives a minimum-length walk) *)
+Theorem C03_floyd_hops_path : forall n L, positive n L ->
+  forall i j x, (i < n)%nat -> (j < n)%nat -> i <> j -> spl (floyd n L) i j = Some x ->
+    is_min_dist n L i j (Some x) /\
+    exists mid, below n mid /\ NoDup (i :: mid ++ [j]) /\ S (length mid) = hops (floyd n L) i j /\
+                oeq (wl L i mid j) (Some x).
+Proof. exact floyd_hops_path. Qed.
+
 (* ---------- totality: the fuel n+2 of every fuelled loop is sufficient, the models return for EVERY input ---------- *)
-Theorem C03_distance_bin_returns : forall n A, exists D, distance_bin n A = Some D.
-Proof. exact distance_bin_total. Qed.
-Theorem C03_distance_wei_returns : forall n G, exists DB, distance_wei n G = Some DB.
-Proof. exact distance_wei_total. Qed.
-Theorem C03_breadthdist_returns : forall n C, exists RD, breadthdist n C = Some RD.
-Proof. exact breadthdist_total. Qed.
-Theorem C03_reachdist_returns : forall n A, exists RD, reachdist n A = Some RD.
-Proof. exact reachdist_total. Qed.
-Theorem C03_efficiency_bin_returns : forall n A, exists e, efficiency_bin n A = Some e.
-Proof. exact efficiency_bin_total. Qed.
-Theorem C03_efficiency_wei_returns : forall n W, exists e, efficiency_wei n W = Some e.
-Proof. exact efficiency_wei_total. Qed.
+Theorem C03_models_return :
+  (forall n A, exists D, distance_bin n A = Some D) /\
+  (forall n G, exists DB, distance_wei n G = Some DB) /\
+  (forall n C, exists RD, breadthdist n C = Some RD) /\
+  (forall n A, exists RD, reachdist n A = Some RD) /\
+  (forall n A, exists e, efficiency_bin n A = Some e) /\
+  (forall n W, exists e, efficiency_wei n W = Some e).
+Proof.
+  exact (conj distance_bin_total (conj distance_wei_total (conj breadthdist_total (conj reachdist_total
+          (conj efficiency_bin_total efficiency_wei_total))))).
+Qed.
 
 (* ---------- breadthdist: FULL correctness (model of the code after repo commit 4574619) ---------- *)
 (* [hasw n C e i j]: a walk with exactly e >= 1 edges along nonzero entries of C exists; [sd n C i j k]: one with k
@@ -224,6 +243,22 @@ Proof.
   - vm_compute. auto.
 Qed.
 
+(* non-vacuity of the strictly-positive hypothesis and of distance_wei's precondition: the same tie-heavy matrix *)
+Example C03_positive_nonvacuous :
+  let G := of_rows 0 [[0;1;2;0;0];[0;0;0;2;0];[0;0;0;1;0];[3;0;0;0;0];[0;0;0;0;0]] in
+  (forall i j, (i < 5)%nat -> (j < 5)%nat -> 0 <= G i j) /\ positive 5 (Lg G) /\
+  run_dwei [[0;1;2;0;0];[0;0;0;2;0];[0;0;0;1;0];[3;0;0;0;0];[0;0;0;0;0]] =
+    Some ([[Some 0; Some 1; Some 2; Some 3; None]; [Some 5; Some 0; Some 7; Some 2; None];
+           [Some 4; Some 5; Some 0; Some 1; None]; [Some 3; Some 4; Some 5; Some 0; None];
+           [None; None; None; None; Some 0]],
+          [[0;1;1;2;0];[2;0;3;1;0];[2;3;0;1;0];[1;2;2;0;0];[0;0;0;0;0]]%nat).
+Proof.
+  assert (H : forall i j, (i < 5)%nat -> (j < 5)%nat ->
+              0 <= of_rows 0 [[0;1;2;0;0];[0;0;0;2;0];[0;0;0;1;0];[3;0;0;0;0];[0;0;0;0;0]] i j).
+  { intros i j _ _. apply of_rows_nonneg. repeat constructor; unfold Qle; cbn; lia. }
+  split; [exact H|]. split; [apply Lg_positive; exact H|]. vm_compute. reflexivity.
+Qed.
+
 Print Assumptions C03_floyd_correct.
 Print Assumptions C03_floyd_diag_zero.
 Print Assumptions C03_floyd_reach_iff_finite.
@@ -237,12 +272,9 @@ Print Assumptions C03_agree_any.
 Print Assumptions C03_distance_wei_correct.
 Print Assumptions C03_agree_wei_floyd.
 Print Assumptions C03_distance_wei_diag_zero.
-Print Assumptions C03_distance_bin_returns.
-Print Assumptions C03_distance_wei_returns.
-Print Assumptions C03_breadthdist_returns.
-Print Assumptions C03_reachdist_returns.
-Print Assumptions C03_efficiency_bin_returns.
-Print Assumptions C03_efficiency_wei_returns.
+Print Assumptions C03_distance_wei_edge_count_path.
+Print Assumptions C03_floyd_hops_path.
+Print Assumptions C03_models_return.
 Print Assumptions C03_breadthdist_correct.
 Print Assumptions C03_breadthdist_min_dist.
 Print Assumptions C03_breadthdist_reach_flag.
